@@ -116,9 +116,12 @@ package panos
 // httpGet hands its URL to net/http, whose transport errors quote it; a
 // non-200 reply becomes an error quoting the reply body. Replies are assumed
 // secret free except the <key> element of the keygen reply.
+// (trusted parts: the contract of (*http.Client).Get in specs/net.vc and the
+// assumption on the reply read from the device; the error built for a non-200
+// reply is verified: status code and reply body, nothing about the request)
 //vc:func (*State).httpGet
-//vc:  trusted[C17]
-//vc:  ensures[C17] err != nil ==> (onlyPass(uri) ==> onlyPass(errText(err))) && (onlyKeyParam(uri) ==> onlyKeyParam(errText(err)))
+//vc:  assume after "io.ReadAll(resp.Body)" onlyKeyElem(bytes(callresult0)) && (onlyKeyParam(uri) ==> secretFree(bytes(callresult0))) && (callresult1 != nil ==> cleanAny(callresult1)) && (resp.StatusCode != 200 ==> secretFree(bytes(callresult0)))
+//vc:  ensures[C17] @errorQuotesRequestOrReplyOnly err != nil ==> (onlyPass(uri) ==> onlyPass(errText(err))) && (onlyKeyParam(uri) ==> onlyKeyParam(errText(err)))
 //vc:  ensures[C17] onlyKeyElem(bytes(result0))
 // replies to requests that carry the key (all but keygen) do not repeat it
 //vc:  ensures[C17] onlyKeyParam(uri) ==> secretFree(bytes(result0))
